@@ -102,16 +102,19 @@ Asg2Bodies == Flat(<< Map2(AAlt, A0s, LAMBDA p, q : Sq(<<p, q>>)), Map2(A0s, AAl
                       Map2(AAlt, A0s, LAMBDA p, q : Sq(<<Op(p), q>>)), Map2(AAlt, A0s, LAMBDA p, q : Un(<<p, q>>, NoSep, FALSE)) >>)
 Asg2Grammars == Map1(Asg2Bodies, LAMBDA e : G(<<Ru("M", e)>>))
 
-\* rule kinds: M over references to A (common), B (match, two parts), C (abstract: A | 'b' A | B), K (single-match rule)
+\* rule kinds: M over references to A (common), B (match, two parts), C (abstract: D | A | 'b' A | B),
+\* D (abstract through a cycle: 'a' 'a' C | K), K (single-match rule)
 KA == Ru("A", As("v", "=", Rf("INT"), NoSep, FALSE))
 KB == Ru("B", Sq(<<Ta, Tb>>))
-KC == Ru("C", Al(<<Rf("A"), Sq(<<Tb, Rf("A")>>), Rf("B")>>))
+KC == Ru("C", Al(<<Rf("D"), Rf("A"), Sq(<<Tb, Rf("A")>>), Rf("B")>>))
+\* D is abstract only through the edge back into the cycle C -> D -> C
+KD == Ru("D", Al(<<Sq(<<Ta, Ta, Rf("C")>>), Rf("K")>>))
 KK == Ru("K", Tab)
 K0 == <<Rf("A"), Rf("B"), Rf("C"), Rf("K"), Ta, Rf("INT")>>
 K1 == Cat(K0, Cat(Binary(K0, K0), Map1(K0, LAMBDA e : As("w", "=", e, NoSep, FALSE))))
 K2 == Cat(K1, Cat(Binary(K1, K0), Binary(K0, K1)))
 KindBodies == IF Depth = 2 THEN K2 ELSE K1
-KindGrammars == Map1(KindBodies, LAMBDA e : G(<<Ru("M", e), KA, KB, KC, KK>>))
+KindGrammars == Map1(KindBodies, LAMBDA e : G(<<Ru("M", e), KA, KB, KC, KD, KK>>))
 
 \* whitespace modes: M over N (noskipws), W (ws=' '), P (plain), with eolterm repetitions and a Comment rule
 MN == RuM("N", Sq(<<Ta, Tb>>), "off", <<>>)
